@@ -47,7 +47,7 @@ func init() {
 				n = 100000
 			}
 			out = append(out, seeded("C18", seed, n, func(i int, sd uint64) *k.Spec {
-				s := &k.Spec{Params: cp(confs[int(k.H(sd, "c", 0)%uint64(len(confs)))], "hist", "random")}
+				s := &k.Spec{Seed: sd, Params: cp(confs[int(k.H(sd, "c", 0)%uint64(len(confs)))], "hist", "random")}
 				swarm(s, "client.go:Client.Kill,grpc_client.go:GRPCClient.Close,rpc_client.go:RPCClient.Close,grpc_server.go:GRPCServer.Stop,grpc_broker.go:GRPCBroker.AcceptAndServe,grpc_broker.go:GRPCBroker.Close,server.go:Serve,grpcmux/")
 				if s.DelayClass == "big" || s.DelayClass == "mid" {
 					s.DelayClass = "tiny"
